@@ -105,7 +105,7 @@ Definition same_core (s s' : st) : Prop :=
 Definition call0 (s : st) (e : event) : st := ev e (set_next_id (S (next_id s)) s).
 
 Inductive prim : st -> st -> Prop :=
-| p_silent s s' : same_core s s' -> prim s s'
+| p_silent s s' : same_core s s' -> connecting s' = connecting s -> prim s s'
 | p_chunk s r rest n : wq s = r :: rest -> n <= req_size r -> r_sh r = false ->
     prim s (ev (EChunk (r_id r) (r_off r) n) (set_wqs (wqs s - n) (set_wq (req_update r n :: rest) s)))
 | p_finish s r rest : wq s = r :: rest -> req_done r = true -> prim s (finish_head r rest s)
@@ -139,7 +139,7 @@ Inductive prim : st -> st -> Prop :=
 | p_flush s : prim s (flush s)
 | p_closecb s : prim s (ev ECloseCb s)
 | p_q s : prim s (ev (EQ (wqs s)) s)
-| p_conncb s c : prim s (ev (EConnCb c) s)
+| p_conn_done s c : connecting s = true -> prim s (ev (EConnCb c) (set_connecting false s))
 | p_fd s r rest : wq s = r :: rest -> r_sh r = true ->
     prim s (ev (EFd (r_id r)) (set_wq (clear_sh r :: rest) s))
 | p_fdfail s r rest : wq s = r :: rest -> r_sh r = true -> prim s (ev (EFdFail (r_id r)) s)
@@ -152,8 +152,9 @@ Inductive prim : st -> st -> Prop :=
     prim s (ev (ERet (next_id s) UV_ENOMEM) (call0 s (EWrite (next_id s) (sumN bufs))))
 | p_write2_nomem s bufs : check_before_write2 s = None ->
     prim s (ev (ERet (next_id s) UV_ENOMEM) (ev (EWrite2 (next_id s)) (call0 s (EWrite (next_id s) (sumN bufs)))))
-| p_connect_ev s c : prim s (ev (EConnect c) s)
-| p_reopen s : closing s = false -> connected s = false -> prim s (ev EReopen (set_writable true s)).
+| p_connect_ev s c : c <> 0%Z -> prim s (ev (EConnect c) s)
+| p_reopen s : closing s = false -> connected s = false -> prim s (ev EReopen (set_writable true s))
+| p_conn_start s : connecting s = false -> prim s (ev (EConnect 0%Z) (set_connecting true s)).
 
 Inductive steps : st -> st -> Prop :=
 | st_refl s : steps s s
@@ -287,6 +288,7 @@ Proof.
       constructor; auto. unfold rwf, req_size; simpl. split; lia.
     + apply Forall_app; split; auto.
     + apply Forall_app; auto.
+  - constructor; unfold live; cbn; auto. apply Forall_app3; auto. apply Forall_app; auto.
   - constructor; unfold live; cbn; auto. apply Forall_app3; auto. apply Forall_app; auto.
   - constructor; unfold live; cbn; auto. apply Forall_app3; auto. apply Forall_app; auto.
   - constructor; unfold live; cbn; auto. apply Forall_app3; auto. apply Forall_app; auto.
@@ -1358,6 +1360,7 @@ Proof.
       rewrite Forall_forall in C. apply C in Hk. lia.
   - apply I2_neutral; simpl; auto.
   - apply I2_neutral; simpl; auto.
+  - apply I2_neutral; simpl; auto.
 Qed.
 
 Lemma Inv12_steps s s' : steps s s' -> Inv1 s /\ Inv2 s -> Inv1 s' /\ Inv2 s'.
@@ -1661,6 +1664,7 @@ Proof.
   - apply I3_plain; simpl; auto. apply I3_plain; simpl; auto. apply I3_ewrite; auto. apply I3_bump; auto.
   - apply I3_plain; simpl; auto.
   - apply I3_plain; simpl; auto.
+  - apply I3_plain; simpl; auto.
 Qed.
 
 Lemma Inv3_init blk o sa pw c ip : Inv3 (init blk o sa pw c ip).
@@ -1903,9 +1907,38 @@ Qed.
 Ltac hold_cases X z a c := destruct X as [| | | | | | z | a | c | | | | | | | |]; unfold hold_ok; simpl; auto;
                            [destruct z; simpl; auto | ..].
 
-Lemma Inv4_prim s s' : prim s s' -> Inv4 s -> Inv4 s'.
+(* the trace only grows *)
+Lemma prim_tr s s' : prim s s' -> exists es, tr s' = es ++ tr s.
 Proof.
-  intros P I. destruct P; unfold call0, finish_head, flush in *.
+  intros P. destruct P; unfold call0, finish_head, flush; cbn;
+    try (destruct (r_freed r); cbn); try (destruct (_ =? _)%Z; cbn);
+    try (first [ exists []; reflexivity | eexists [_]; reflexivity | eexists [_; _]; reflexivity
+               | eexists [_; _; _]; reflexivity ]).
+  destruct H as (_ & _ & _ & _ & _ & _ & _ & _ & _ & _ & E). exists []. exact E.
+Qed.
+
+Lemma steps_tr s s' : steps s s' -> exists es, tr s' = es ++ tr s.
+Proof.
+  induction 1; [exists []; reflexivity|]. destruct (prim_tr _ _ H) as [e1 E1]. destruct IHsteps as [e2 E2].
+  exists (e2 ++ e1). rewrite E2, E1, app_assoc. reflexivity.
+Qed.
+
+(* until a connect re-enables a stream that was shut down: a pending shutdown means not writable *)
+Definition Inv4r (s : st) : Prop := shutreq s = true -> writable s = false.
+
+Lemma Inv4r_prim s s' : prim s s' -> ~ In EReopen (tr s') -> Inv4r s -> Inv4r s'.
+Proof.
+  intros P Hn R. unfold Inv4r in *.
+  destruct P; unfold call0, finish_head, flush in *; cbn in *; auto;
+    try (destruct (r_freed r); cbn; auto; fail); try (destruct (_ =? _)%Z; cbn; auto; fail);
+    try discriminate.
+  - destruct H as (_ & _ & _ & _ & E1 & E2 & _). rewrite E1, E2. auto.
+  - exfalso. apply Hn. left; reflexivity.
+Qed.
+
+Lemma Inv4_prim s s' : prim s s' -> ~ In EReopen (tr s') -> Inv4r s -> Inv4 s -> Inv4 s'.
+Proof.
+  intros P Hnr Rq I. destruct P; unfold call0, finish_head, flush in *.
   - destruct H as (E1 & E2 & E3 & _ & _ & E4 & _ & _ & _ & _ & E5).
     apply (Inv4_state s); auto; try congruence. unfold idle. rewrite E1, E2, E3. auto.
   - (* chunk: impossible after shutdown(2) / the shutdown callback *)
@@ -1966,12 +1999,20 @@ Proof.
       * intros X HX. cbn in HX. hold_cases X z a c.
         destruct I as [_ _ _ _ E _]. destruct (E c HX) as [Hi _]. auto.
       * apply (Inv4_state s); auto. intros Hi. destruct (Hni Hi).
-  - apply (Inv4_state s); auto.
-  - apply Inv4_event; [ | split; auto | exact I].
-    intros X HX. hold_cases X z a' c.
-  - apply (Inv4_state s); auto.
-  - apply Inv4_event; [ | split; [repeat split|]; auto | exact I].
+  - (* shutdown cancelled by close *)
+    apply Inv4_event; [ | split; [repeat split; auto | apply Rq; auto] | apply (Inv4_state s); auto].
     intros X HX. hold_cases X z a' c'.
+  - (* shutdown(2) succeeded, callback *)
+    apply Inv4_event; [ | split; [repeat split; auto | apply Rq; auto] | ].
+    + intros X HX. hold_cases X z a' c'.
+    + apply (Inv4_state (ev (ESysShut 0%Z) (set_shutreq false s))); auto.
+      apply Inv4_event; [ | split; [auto | apply Rq; auto] | apply (Inv4_state s); auto].
+      intros X HX. hold_cases X z a' c'.
+  - (* shutdown(2) failed, callback *)
+    apply Inv4_event; [ | split; [repeat split; auto | apply Rq; auto] | ].
+    + intros X HX. hold_cases X z a' c'.
+    + apply Inv4_event; [ | split; [auto | apply Rq; auto] | apply (Inv4_state s); auto].
+      intros X HX. hold_cases X z a' c'.
   - (* flush *)
     apply (Inv4_state s); auto. unfold idle; cbn. intros (A & B & C). rewrite A, B. auto.
   - apply Inv4_inert; simpl; auto.
@@ -2009,10 +2050,21 @@ Proof.
     hold_cases X z a c.
     + destruct I as [A _ _ _ _ _]. rewrite (A HX) in Hw. discriminate.
     + unfold UV_ENOMEM; lia.
+  - apply Inv4_inert; simpl; auto.
+  - exfalso. apply Hnr. left; reflexivity.
+  - apply Inv4_inert; simpl; auto. apply (Inv4_state s); auto.
 Qed.
 
-Lemma Inv4_steps s s' : steps s s' -> Inv4 s -> Inv4 s'.
-Proof. induction 1; eauto using Inv4_prim. Qed.
+Lemma Inv4_steps s s' : steps s s' -> ~ In EReopen (tr s') -> Inv4r s /\ Inv4 s -> Inv4r s' /\ Inv4 s'.
+Proof.
+  induction 1 as [|s s1 s2 P S IH]; auto. intros Hn [R I].
+  assert (Hn1 : ~ In EReopen (tr s1)).
+  { destruct (steps_tr _ _ S) as [es E]. intros X. apply Hn. rewrite E. apply in_or_app; right; exact X. }
+  apply IH; auto. split; [eapply Inv4r_prim; eauto | eapply Inv4_prim; eauto].
+Qed.
+
+Lemma Inv4r_init blk o sa pw c ip : Inv4r (init blk o sa pw c ip).
+Proof. unfold Inv4r. init_cases c; cbn; discriminate. Qed.
 
 Lemma Inv4_init blk o sa pw c ip : Inv4 (init blk o sa pw c ip).
 Proof.
@@ -2031,16 +2083,19 @@ Variable beh : nat -> list op.
 Variables (blk : bool) (o : list answer) (sa : Z) (pw : list bool) (cfg : conn_cfg) (ip : bool) (ops : list op).
 Let s := exec beh (init blk o sa pw cfg ip) ops.
 
-Lemma final_inv4 : Inv4 s.
+Lemma final_inv4 : ~ In EReopen (tr s) -> Inv4 s.
 Proof.
-  destruct (exec_steps beh blk o sa pw cfg ip ops) as [S _]. eapply Inv4_steps; eauto. apply Inv4_init.
+  intros Hn. destruct (exec_steps beh blk o sa pw cfg ip ops) as [S _].
+  apply (Inv4_steps _ _ S Hn). split; [apply Inv4r_init | apply Inv4_init].
 Qed.
 
 Lemma cb_ids_nil l : Forall q_after_cb l -> cb_ids l = [].
 Proof. induction 1 as [|e l He _ IH]; simpl; auto. destruct e; simpl in *; auto. tauto. Qed.
 
-(* C05_shutdown_last *)
+(* C05_shutdown_last_partial: as long as no connect has set UV_HANDLE_WRITABLE again on a
+   stream where it was clear (ghost event EReopen) *)
 Theorem shutdown_last :
+  ~ In EReopen (trace s) ->
   (forall l1 l2, trace s = l1 ++ EShut 0%Z :: l2 ->
      forall id c, In (ERet id c) l2 -> c = UV_EPIPE \/ c = UV_EBADF) /\
   (forall a l1 l2, trace s = l1 ++ ESysShut a :: l2 -> forall i off n, ~ In (EChunk i off n) l2) /\
@@ -2048,7 +2103,8 @@ Theorem shutdown_last :
   (forall c l1 l2, trace s = l1 ++ EShutCb c :: l2 ->
      cb_ids l2 = [] /\ (forall i off n, ~ In (EChunk i off n) l2) /\ (forall id, ~ In (ERet id 0%Z) l2)).
 Proof.
-  destruct final_inv4 as [A B C D E F]. unfold trace. split; [|split; [|split]].
+  intros Hn. assert (Hn' : ~ In EReopen (tr s)) by (intros X; apply Hn; unfold trace; apply in_rev in X; exact X).
+  destruct (final_inv4 Hn') as [A B C D E F]. unfold trace. split; [|split; [|split]].
   - intros l1 l2 H id c Hin. apply rev_split in H. apply B in H. rewrite Forall_forall in H.
     apply in_rev in Hin. apply (H _ Hin).
   - intros a l1 l2 H i off n Hin. apply rev_split in H. apply D in H. rewrite Forall_forall in H.
@@ -2068,9 +2124,10 @@ Definition shutdown_cb_last (t : list event) : Prop :=
   forall l1 l2 c, t = l1 ++ EShutCb c :: l2 -> cb_ids l2 = [].
 
 Theorem shutdown_cb_last_holds beh blk o sa pw cfg ip ops :
+  ~ In EReopen (trace (exec beh (init blk o sa pw cfg ip) ops)) ->
   shutdown_cb_last (trace (exec beh (init blk o sa pw cfg ip) ops)).
 Proof.
-  intros l1 l2 c H. destruct (shutdown_last beh blk o sa pw cfg ip ops) as (_ & _ & _ & X).
+  intros Hn l1 l2 c H. destruct (shutdown_last beh blk o sa pw cfg ip ops Hn) as (_ & _ & _ & X).
   destruct (X c l1 l2 H) as [Y _]. exact Y.
 Qed.
 
@@ -2170,9 +2227,11 @@ Proof.
     split; [apply KC_same; [exact A | exact B] | unfold CD; split; [exact C | exact D]].
 Qed.
 
-Lemma api_kc_cd s o : KC s (api s o) /\ CD s (api s o).
+Definition noconn (os : list op) : Prop := Forall (fun o => o <> OConnect) os.
+
+Lemma api_kc_cd s o : o <> OConnect -> KC s (api s o) /\ CD s (api s o).
 Proof.
-  destruct o; cbn [api].
+  intros Hne. destruct o; cbn [api].
   - apply api_write_kc_cd.
   - unfold api_try.
     set (s0 := ev (ETry (next_id s) (sumN bufs)) (set_next_id (S (next_id s)) s)).
@@ -2192,6 +2251,7 @@ Proof.
     destruct (needs_alloc bufs); [|apply api_write_kc_cd]. split; [apply KC_same | unfold CD]; auto.
   - unfold api_write2_nomem. destruct (check_before_write2 s); [apply api_write2_kc_cd|].
     destruct (needs_alloc bufs); [|apply api_write2_kc_cd]. split; [apply KC_same | unfold CD]; auto.
+  - congruence.
   - split; [apply KC_refl | apply CD_refl].
 Qed.
 
@@ -2238,9 +2298,9 @@ Proof.
       right; left; reflexivity.
 Qed.
 
-Lemma api_prog s o : Prog s -> Prog (api s o).
+Lemma api_prog s o : o <> OConnect -> Prog s -> Prog (api s o).
 Proof.
-  intros P. destruct o; cbn [api].
+  intros Hne P. destruct o; cbn [api].
   - apply api_write_prog; auto.
   - unfold api_try.
     set (s0 := ev (ETry (next_id s) (sumN bufs)) (set_next_id (S (next_id s)) s)).
@@ -2260,31 +2320,33 @@ Proof.
     destruct (needs_alloc bufs); [|apply api_write_prog; auto]. apply (Prog_same s); auto.
   - unfold api_write2_nomem. destruct (check_before_write2 s); [apply api_write2_prog; auto|].
     destruct (needs_alloc bufs); [|apply api_write2_prog; auto]. apply (Prog_same s); auto.
+  - congruence.
   - exact P.
 Qed.
 
-Lemma apis_kc_cd os : forall s, KC s (apis s os) /\ CD s (apis s os).
+Lemma apis_kc_cd os : noconn os -> forall s, KC s (apis s os) /\ CD s (apis s os).
 Proof.
-  induction os as [|o os IH]; intros s; cbn [apis]; [split; [apply KC_refl | apply CD_refl]|].
-  destruct (api_kc_cd s o) as [A B]. destruct (IH (api s o)) as [C D].
+  induction 1 as [|o os Ho Hos IH]; intros s; cbn [apis]; [split; [apply KC_refl | apply CD_refl]|].
+  destruct (api_kc_cd s o Ho) as [A B]. destruct (IH (api s o)) as [C D].
   split; eauto using KC_trans, CD_trans.
 Qed.
 
-Lemma apis_prog os : forall s, Prog s -> Prog (apis s os).
-Proof. induction os as [|o os IH]; intros s P; cbn [apis]; auto. apply IH, api_prog, P. Qed.
+Lemma apis_prog os : noconn os -> forall s, Prog s -> Prog (apis s os).
+Proof. induction 1 as [|o os Ho Hos IH]; intros s P; cbn [apis]; auto. apply IH, api_prog; auto. Qed.
 
 Section ProgCb.
 Variable beh : nat -> list op.
+Hypothesis Hbeh : forall k, noconn (beh k).     (* no connect is started again from a callback *)
 
 Lemma run_cb_kc_cd s : KC s (run_cb beh s) /\ CD s (run_cb beh s).
 Proof.
-  unfold run_cb. destruct (apis_kc_cd (beh (StreamWrite.cbn s)) (set_cbn (S (StreamWrite.cbn s)) s)) as [A B].
+  unfold run_cb. destruct (apis_kc_cd (beh (StreamWrite.cbn s)) (Hbeh _) (set_cbn (S (StreamWrite.cbn s)) s)) as [A B].
   split; [eapply KC_trans; [|exact A]; apply KC_same; reflexivity
          | eapply CD_trans; [|exact B]; unfold CD; auto].
 Qed.
 
 Lemma run_cb_prog s : Prog s -> Prog (run_cb beh s).
-Proof. intros P. unfold run_cb. apply apis_prog. apply (Prog_same s); auto. Qed.
+Proof. intros P. unfold run_cb. apply apis_prog; [apply Hbeh|]. apply (Prog_same s); auto. Qed.
 
 Lemma cb_step_same r rest s :
   let s3 := ev (ECb (r_id r) (r_err r)
@@ -2331,29 +2393,43 @@ Qed.
 Lemma drain_shape s :
   exists s5, (drain beh s = s5 \/ drain beh s = run_cb beh s5) /\
     closing s5 = closing s /\ fdopen s5 = fdopen s /\ connecting s5 = connecting s /\ derr s5 = derr s /\
-    wq s5 = wq s /\ fed s5 = fed s /\ (armed s5 = armed s \/ (closing s = false /\ armed s5 = false)).
+    wq s5 = wq s /\ fed s5 = fed s /\ (armed s5 = armed s \/ (closing s = false /\ armed s5 = false)) /\
+    cq s5 = cq s /\
+    (shutreq s5 = false \/ (shutreq s = true /\ shut s = true)).
 Proof.
   unfold drain.
   set (s1 := if closing s then s else set_armed false s).
   assert (E1 : closing s1 = closing s /\ fdopen s1 = fdopen s /\ connecting s1 = connecting s /\
                derr s1 = derr s /\ wq s1 = wq s /\ fed s1 = fed s /\
-               (armed s1 = armed s \/ (closing s = false /\ armed s1 = false))).
+               (armed s1 = armed s \/ (closing s = false /\ armed s1 = false)) /\ cq s1 = cq s).
   { unfold s1. destruct (closing s) eqn:Hc; cbn; repeat split; auto. }
-  destruct (negb (shutreq s1)); [exists s1; split; auto|].
-  destruct (closing s1 || negb (shut s1)); [|exists s1; split; auto].
+  assert (E2 : shutreq s1 = shutreq s /\ shut s1 = shut s).
+  { unfold s1. destruct (closing s); cbn; auto. }
+  destruct E2 as [E2 E3].
+  destruct (shutreq s1) eqn:Hsr; cbn [negb].
+  2: { exists s1. split; [left; reflexivity|]. destruct E1 as (A1 & A2 & A3 & A4 & A5 & A6 & A7 & A8).
+       repeat (split; [assumption|]). left; exact Hsr. }
+  destruct (closing s1 || negb (shut s1)) eqn:Hcond.
+  2: { exists s1. split; [left; reflexivity|]. destruct E1 as (A1 & A2 & A3 & A4 & A5 & A6 & A7 & A8).
+       repeat (split; [assumption|]). right. split; [congruence|]. rewrite <- E3.
+       destruct (shut s1); [reflexivity|]. rewrite Bool.orb_true_r in Hcond. discriminate. }
   set (s2 := set_shutreq false s1). change (closing s2) with (closing s1).
-  remember (closing s1) as b eqn:Hb.
   assert (Fin : forall s5, closing s5 = closing s1 -> fdopen s5 = fdopen s1 -> connecting s5 = connecting s1 ->
-                derr s5 = derr s1 -> wq s5 = wq s1 -> fed s5 = fed s1 -> armed s5 = armed s1 ->
+                derr s5 = derr s1 -> wq s5 = wq s1 -> fed s5 = fed s1 -> armed s5 = armed s1 -> cq s5 = cq s1 ->
+                shutreq s5 = false ->
                 closing s5 = closing s /\ fdopen s5 = fdopen s /\ connecting s5 = connecting s /\ derr s5 = derr s /\
-                wq s5 = wq s /\ fed s5 = fed s /\ (armed s5 = armed s \/ (closing s = false /\ armed s5 = false))).
-  { intros s5 -> -> -> -> -> -> ->. rewrite <- Hb. exact E1. }
-  destruct b.
-  - exists (ev (EShutCb UV_ECANCELED) s2). split; [right; reflexivity | apply Fin; reflexivity].
-  - set (s3 := ev (ESysShut (shutans s2)) s2). change (shutans s3) with (shutans s2).
-    destruct (shutans s2 =? 0)%Z.
-    + exists (ev (EShutCb 0%Z) (set_shut true s3)). split; [right; reflexivity | apply Fin; reflexivity].
-    + exists (ev (EShutCb (shutans s2)) s3). split; [right; reflexivity | apply Fin; reflexivity].
+                wq s5 = wq s /\ fed s5 = fed s /\ (armed s5 = armed s \/ (closing s = false /\ armed s5 = false)) /\
+                cq s5 = cq s /\
+                (shutreq s5 = false \/ (shutreq s = true /\ shut s = true))).
+  { intros s5 -> -> -> -> -> -> -> -> Hs5. destruct E1 as (A1 & A2 & A3 & A4 & A5 & A6 & A7 & A8).
+    repeat (split; [assumption|]). left; exact Hs5. }
+  destruct (closing s1) eqn:Hcl1.
+  - exists (ev (EShutCb UV_ECANCELED) s2). split; [right; reflexivity | apply Fin; try reflexivity; exact Hcl1].
+  - destruct (shutdown_answer s2 =? 0)%Z.
+    + exists (ev (EShutCb 0%Z) (set_shut true (ev (ESysShut (shutdown_answer s2)) s2))).
+      split; [right; reflexivity | apply Fin; try reflexivity; exact Hcl1].
+    + exists (ev (EShutCb (shutdown_answer s2)) (ev (ESysShut (shutdown_answer s2)) s2)).
+      split; [right; reflexivity | apply Fin; try reflexivity; exact Hcl1].
 Qed.
 
 Lemma drain_kc s : KC s (drain beh s).
@@ -2385,14 +2461,19 @@ Proof.
   set (s2 := set_connecting false s1).
   match goal with |- context [run_cb beh (ev (EConnCb error) ?x)] => set (s3 := x) end.
   assert (K3 : KC s (ev (EConnCb error) s3)).
-  { apply KC_same; unfold s3; destruct ((error <? 0)%Z || _); cbn; auto. }
+  { apply KC_same; unfold s3; destruct (error <? 0)%Z; destruct ((_ : bool) || _); cbn; auto. }
   destruct (run_cb_kc_cd (ev (EConnCb error) s3)) as [K4 _].
   set (s4 := run_cb beh (ev (EConnCb error) s3)) in *.
   assert (K : KC s s4) by (eapply KC_trans; eauto).
   destruct (negb (fdopen s4)); auto.
   destruct (error <? 0)%Z; auto.
-  eapply KC_trans; [exact K|]. eapply KC_trans; [apply (KC_same s4 (flush s4)); reflexivity|].
-  apply write_callbacks_kc_cd.
+  assert (K5 : KC s (write_callbacks beh (flush s4))).
+  { eapply KC_trans; [exact K|]. eapply KC_trans; [apply (KC_same s4 (flush s4)); reflexivity|].
+    apply write_callbacks_kc_cd. }
+  set (s5 := write_callbacks beh (flush s4)) in *.
+  destruct (shutreq s5 && negb (connecting s5) && fdopen s5); auto.
+  destruct (wq s5); auto. destruct (cq s5); auto.
+  eapply KC_trans; [exact K5 | apply drain_kc].
 Qed.
 
 Lemma stream_connect_prog s : FC s -> connecting s = true -> C1 s -> Prog (stream_connect beh s).
@@ -2411,13 +2492,12 @@ Proof.
   destruct E1 as (Ec & Ef & Eco & Ew & Ea & Efe & Hcase).
   assert (F1 : FC s1) by (unfold FC; rewrite Ec, Ef; exact F).
   destruct (Z.eqb_spec error (- EINPROGRESS)) as [He|He].
-  { (* still in progress: nothing consumed but an SO_ERROR answer *)
-    destruct Hcase as [(X & _ & Y)|[Hd Ha]]; [congruence|].
+  { destruct Hcase as [(X & _ & Y)|[Hd Ha]]; [congruence|].
     split; [exact F1|]. right. rewrite Eco, Hc. split; [left; rewrite Ea; auto | left; rewrite Ea; exact Ha]. }
   set (s2 := set_connecting false s1).
   match goal with |- context [run_cb beh (ev (EConnCb error) ?x)] => set (s3 := x) end.
   assert (E3 : closing s3 = closing s1 /\ fdopen s3 = fdopen s1 /\ connecting s3 = false /\ wq s3 = wq s1).
-  { unfold s3. destruct ((error <? 0)%Z || _); cbn; auto. }
+  { unfold s3. destruct (error <? 0)%Z; destruct ((_ : bool) || _); cbn; auto. }
   destruct E3 as (E3c & E3f & E3co & E3w).
   assert (F3 : FC (ev (EConnCb error) s3)) by (unfold FC; cbn; rewrite E3c, E3f; exact F1).
   destruct (run_cb_kc_cd (ev (EConnCb error) s3)) as [[K4a K4b] [K4c _]].
@@ -2426,18 +2506,27 @@ Proof.
     set (s4 := run_cb beh (ev (EConnCb error) s3)) in *.
     assert (F4 : FC s4) by (apply K4b; exact F3).
     destruct (fdopen s4) eqn:Hfd; cbn [negb].
-    + apply write_callbacks_prog. split; [exact F4|]. right.
-      assert (Hc4 : connecting (flush s4) = false).
+    + assert (Hc4 : connecting (flush s4) = false).
       { change (connecting (flush s4)) with (connecting s4). rewrite K4c. exact E3co. }
-      rewrite Hc4. left; reflexivity.
+      assert (P5 : Prog (write_callbacks beh (flush s4))).
+      { apply write_callbacks_prog. split; [exact F4|]. right. rewrite Hc4. left; reflexivity. }
+      destruct (write_callbacks_kc_cd (flush s4)) as [_ [Cc _]].
+      set (s5 := write_callbacks beh (flush s4)) in *.
+      destruct (shutreq s5 && negb (connecting s5) && fdopen s5); auto.
+      destruct (wq s5) eqn:Hq5; auto. destruct (cq s5); auto.
+      apply drain_prog; [apply P5 | rewrite Cc; exact Hc4 | left; exact Hq5].
     + split; [exact F4 | left; apply F4; exact Hfd].
-  - (* connected: POLLOUT stays armed iff something is queued *)
+  - (* connected: POLLOUT stays armed iff something is queued or a shutdown is pending *)
     assert (Ha : armed s1 = true).
     { destruct Hcase as [(X & Y & _)|[_ Ha]]; [lia | rewrite Ea; exact Ha]. }
+    assert (Ha3 : wq s1 = [] \/ armed s3 = true).
+    { unfold s3. destruct (Z.ltb_spec error 0); [lia|]. cbn [orb].
+      change (wq s2) with (wq s1). destruct (wq s1) eqn:Hq; [left; reflexivity|]. right. cbn. exact Ha. }
     assert (P3 : Prog (ev (EConnCb error) s3)).
-    { split; [exact F3|]. right. cbn. rewrite E3co. unfold s3.
-      destruct (Z.ltb_spec error 0); [lia|]. cbn [orb].
-      destruct (wq s2) eqn:Hq; cbn; [left; exact Hq | right; left; exact Ha]. }
+    { split; [exact F3|]. right.
+      change (connecting (ev (EConnCb error) s3)) with (connecting s3). rewrite E3co.
+      change (wq (ev (EConnCb error) s3)) with (wq s3). change (armed (ev (EConnCb error) s3)) with (armed s3).
+      rewrite E3w. destruct Ha3 as [X|X]; [left; exact X | right; left; exact X]. }
     pose proof (run_cb_prog _ P3) as P4.
     destruct (negb (fdopen (run_cb beh (ev (EConnCb error) s3)))); exact P4.
 Qed.
@@ -2516,15 +2605,15 @@ Proof.
   apply andb_prop in Hc. destruct Hc as [Hc _]. apply destroy_prog; [apply P3 | exact Hc].
 Qed.
 
-Lemma step_prog s o : Prog s -> Prog (step beh s o).
+Lemma step_prog s o : o <> OConnect -> Prog s -> Prog (step beh s o).
 Proof.
-  intros P. unfold step. apply (Prog_same (match o with ORun => run_iter beh s | _ => api s o end)); auto.
-  destruct o; try (apply api_prog; auto). apply run_iter_prog; auto.
+  intros Hne P. unfold step. apply (Prog_same (match o with ORun => run_iter beh s | _ => api s o end)); auto.
+  destruct o; try (apply api_prog; auto; fail); try congruence. apply run_iter_prog; auto.
 Qed.
 
-Lemma exec_prog os : forall s, Prog s -> Prog (exec beh s os).
+Lemma exec_prog os : noconn os -> forall s, Prog s -> Prog (exec beh s os).
 Proof.
-  induction os as [|o os IH]; intros s P; cbn [exec]; auto. apply IH, step_prog, P.
+  induction 1 as [|o os Ho Hos IH]; intros s P; cbn [exec]; auto. apply IH, step_prog; auto.
 Qed.
 
 End ProgCb.
@@ -2541,16 +2630,30 @@ Proof.
   - split; [unfold FC; cbn; discriminate|]. right; cbn. auto.
 Qed.
 
-(* C05_progress *)
+(* C05_progress_partial: scripts in which no connect is started again on the handle *)
 Theorem progress beh blk o sa pw c ip ops :
+  noconn ops -> (forall k, noconn (beh k)) ->
   let s := exec beh (init blk o sa pw c ip) ops in
   wq s <> [] \/ connecting s = true -> closing s = false -> armed s = true \/ fed s = true.
 Proof.
-  intros s Hq Hc.
-  assert (P : Prog s) by (apply exec_prog, Prog_init).
+  intros Hops Hbeh s Hq Hc.
+  assert (P : Prog s) by (apply exec_prog; auto; apply Prog_init).
   destruct P as [_ [P|P]]; [congruence|].
   destruct (connecting s); [apply P|]. destruct Hq as [Hq|Hq]; [|discriminate].
   destruct P as [P|P]; [contradiction | exact P].
+Qed.
+
+(* C05_progress_refuted: a connect started from a write callback; uv__stream_io then finds both queues
+   empty and uv__drain stops POLLOUT: the connect is pending with no wake-up *)
+Definition beh_strand (k : nat) : list op := match k with 1%nat => [OConnect] | _ => [] end.
+
+Theorem progress_refuted :
+  exists beh cfg ops,
+    let s := exec beh (init false [AErr 32] 0%Z [] cfg false) ops in
+    connecting s = true /\ closing s = false /\ armed s = false /\ fed s = false.
+Proof.
+  exists beh_strand, (Some (true, Some 115%positive, [111%Z], [None])), [ORun; OWrite [1]; ORun; ORun].
+  vm_compute. repeat split.
 Qed.
 
 (* uv_try_write while a connect is pending *)
@@ -2579,33 +2682,166 @@ Proof.
 Qed.
 
 (* ------------------------------------------------------------------ *)
-(* a pending uv_shutdown must keep a wake-up                           *)
+(* a pending uv_shutdown keeps a wake-up until uv__drain carries it out *)
+(* (scripts in which no connect is started again on the handle)        *)
 (* ------------------------------------------------------------------ *)
 Definition shutdown_progress (s : st) : Prop :=
   shutreq s = true -> closing s = false -> armed s = true \/ fed s = true.
 
-(* C05_shutdown_progress_refuted: uv_shutdown while the connect is pending and
-   nothing is queued; uv__stream_connect stops POLLOUT and nobody drains *)
-Theorem shutdown_progress_refuted :
-  exists beh cfg ops, ~ shutdown_progress (exec beh (init false [] 0%Z [] cfg false) ops).
+Definition SP (s : st) : Prop :=
+  closing s = true \/ shutreq s = false \/ armed s = true \/ fed s = true.
+Definition NS (s : st) : Prop := shutreq s = true -> shut s = false.
+Definition CC (s : st) : Prop := connecting s = true -> cq s = [].
+(* finished requests wait for a run of the pending queue; nothing finishes while connecting *)
+Definition B3 (s : st) : Prop :=
+  closing s = true \/ (NS s /\ (cq s = [] \/ fed s = true) /\ CC s).
+
+Lemma write_loop_q : forall fuel count s,
+  let s' := write_loop fuel count s in
+  (armed s = true \/ fed s = true -> armed s' = true \/ fed s' = true) /\
+  (fed s' = true \/ (cq s' = cq s /\ fed s' = fed s)).
 Proof.
-  exists (fun _ => []), (Some (true, Some 115%positive, [0%Z])), [OShutdown; ORun].
-  intros H. assert (X : false = true \/ false = true) by (apply H; vm_compute; reflexivity).
-  destruct X; discriminate.
+  induction fuel as [|f IH]; intros count s; cbn [write_loop].
+  - cbn. split; auto.
+  - destruct (wq s) as [|r rest] eqn:Hq; [split; auto|].
+    destruct (r_sh r && negb (sh_open s)); [cbn; split; auto|].
+    destruct (sys_write (oracle s) (offered (skipn (r_widx r) (r_bufs r)))) as [res o'].
+    destruct res as [n| |c].
+    + destruct (req_done (req_update r n)).
+      * destruct count; [cbn; split; auto|].
+        match goal with |- context [write_loop f ?c0 ?x] => destruct (IH c0 x) as [A B] end.
+        split; [intros _; apply A; right; reflexivity|].
+        left. destruct B as [B|[_ B]]; [exact B | rewrite B; reflexivity].
+      * match goal with |- context [if blocking ?x then _ else _] => destruct (blocking x) end.
+        -- match goal with |- context [write_loop f count ?x] => destruct (IH count x) as [A B] end.
+           split.
+           ++ intros H. apply A. destruct (r_sh r); exact H.
+           ++ destruct B as [B|[B1 B2]]; [left; exact B | right]. rewrite B1, B2. destruct (r_sh r); split; reflexivity.
+        -- cbn. split; [auto|]. right. destruct (r_sh r); split; reflexivity.
+    + match goal with |- context [if blocking ?x then _ else _] => destruct (blocking x) end.
+      * match goal with |- context [write_loop f count ?x] => destruct (IH count x) as [A B] end.
+        split.
+        -- intros H. apply A. destruct (r_sh r); exact H.
+        -- destruct B as [B|[B1 B2]]; [left; exact B | right]. rewrite B1, B2. destruct (r_sh r); split; reflexivity.
+      * cbn. split; [auto|]. right. destruct (r_sh r); split; reflexivity.
+    + cbn. split; auto.
 Qed.
 
-(* C05_shutdown_progress_partial: an accepted uv_shutdown on a stream with no connect
-   pending leaves a wake-up behind (the pending queue when nothing is queued, else
-   whatever serves the write queue). *)
-Theorem shutdown_progress_partial s :
-  Prog s -> connecting s = false ->
-  writable s = true -> shut s = false -> shutreq s = false -> closing s = false -> closed s = false ->
-  shutreq (api_shutdown s) = true /\
-  (armed (api_shutdown s) = true \/ fed (api_shutdown s) = true).
+Lemma uv_write_queue_q s :
+  shutreq (uv_write_queue s) = shutreq s /\ shut (uv_write_queue s) = shut s /\
+  (armed s = true \/ fed s = true -> armed (uv_write_queue s) = true \/ fed (uv_write_queue s) = true) /\
+  (fed (uv_write_queue s) = true \/ (cq (uv_write_queue s) = cq s /\ fed (uv_write_queue s) = fed s)).
 Proof.
-  intros [_ P] Hc Hw Hs Hr Hcl Hcd. unfold api_shutdown. rewrite Hw, Hs, Hr, Hcl, Hcd. cbn.
-  destruct (wq s) eqn:Hq; cbn; [auto|]. split; [reflexivity|].
-  destruct P as [P|P]; [congruence|]. rewrite Hc in P. destruct P as [P|P]; [congruence | exact P].
+  unfold uv_write_queue. destruct (write_loop_sim (write_fuel s) 32 s) as [_ F].
+  destruct F as (_ & F1 & _ & F2 & _). destruct (write_loop_q (write_fuel s) 32 s) as [A B]. auto.
+Qed.
+
+Lemma B3_same s s' :
+  closing s' = closing s -> shutreq s' = shutreq s -> shut s' = shut s -> cq s' = cq s -> fed s' = fed s ->
+  connecting s' = connecting s -> B3 s -> B3 s'.
+Proof. unfold B3, NS, CC. intros -> -> -> -> -> ->. auto. Qed.
+
+Lemma SP_same s s' :
+  closing s' = closing s -> shutreq s' = shutreq s -> armed s' = armed s -> fed s' = fed s -> SP s -> SP s'.
+Proof. unfold SP. intros -> -> -> ->. auto. Qed.
+
+(* the common part of uv_write / uv_write2 after the checks *)
+Lemma enq_b3_sp (s0 s1 : st) (ret : st -> st) :
+  closing s1 = closing s0 -> shutreq s1 = shutreq s0 -> shut s1 = shut s0 -> cq s1 = cq s0 -> fed s1 = fed s0 ->
+  connecting s1 = connecting s0 -> armed s1 = armed s0 ->
+  forall e : bool,
+  let s2 := if connecting s1 then s1 else if e then uv_write_queue s1 else set_armed true s1 in
+  (B3 s0 -> B3 s2) /\ (SP s0 -> SP s2).
+Proof.
+  intros E1 E2 E3 E4 E5 E6 E7 e. cbv zeta.
+  destruct (connecting s1) eqn:Hc.
+  - split; [apply B3_same; auto; congruence | apply SP_same; auto].
+  - destruct e.
+    + destruct (uv_write_queue_frame s1) as (A & _ & C & _).
+      destruct (uv_write_queue_q s1) as (Q1 & Q2 & Q3 & Q4).
+      split.
+      * intros [H|(N & Q & Cc)]; [left; rewrite A, E1; exact H | right].
+        split; [unfold NS in *; rewrite Q1, Q2, E2, E3; exact N|].
+        split; [|unfold CC; rewrite C, Hc; discriminate].
+        destruct Q4 as [X|[X Y]]; [right; exact X|]. rewrite X, Y, E4, E5. exact Q.
+      * unfold SP. rewrite A, Q1, E1, E2. intros [H|[H|H]]; auto.
+        right; right. apply Q3. rewrite E7, E5. exact H.
+    + split.
+      * apply B3_same; cbn; auto. congruence.
+      * unfold SP; cbn. auto.
+Qed.
+
+Lemma api_b3_sp s o : o <> OConnect -> Prog s -> (B3 s -> B3 (api s o)) /\ (SP s -> SP (api s o)).
+Proof.
+  intros Hne P. destruct o; cbn [api].
+  - unfold api_write.
+    set (s0 := ev (EWrite (next_id s) (sumN bufs)) (set_next_id (S (next_id s)) s)).
+    destruct (check_before_write s0); [split; [apply B3_same | apply SP_same]; auto|].
+    set (s1 := set_wq _ _).
+    destruct (enq_b3_sp s s1 (fun x => x) eq_refl eq_refl eq_refl eq_refl eq_refl eq_refl eq_refl (wqs s0 =? 0)) as [A B].
+    split; intros H; [apply (B3_same _ _ eq_refl eq_refl eq_refl eq_refl eq_refl eq_refl (A H))
+                     | apply (SP_same _ _ eq_refl eq_refl eq_refl eq_refl (B H))].
+  - unfold api_try.
+    set (s0 := ev (ETry (next_id s) (sumN bufs)) (set_next_id (S (next_id s)) s)).
+    destruct (connecting s0 || negb (wqs s0 =? 0)); [split; [apply B3_same | apply SP_same]; auto|].
+    destruct (check_before_write s0); [split; [apply B3_same | apply SP_same]; auto|].
+    destruct (sys_write (oracle s0) (offered bufs)) as [res o']. destruct res;
+      (split; [apply B3_same | apply SP_same]; auto).
+  - unfold api_shutdown.
+    destruct (negb (writable s) || shut s || shutreq s || closing s || closed s) eqn:Hcond;
+      [split; [apply B3_same | apply SP_same]; auto|].
+    assert (Hs : shut s = false /\ closing s = false).
+    { destruct (writable s), (shut s), (shutreq s), (closing s); try discriminate; auto. }
+    destruct Hs as [Hs Hcl]. cbn. destruct (wq s) eqn:Hq.
+    + split.
+      * intros [H|(N & Q & Cc)]; [congruence | right]. cbn. split; [intros _; exact Hs|]. split; [right; reflexivity | exact Cc].
+      * intros _. unfold SP; cbn. auto.
+    + split.
+      * intros [H|(N & Q & Cc)]; [congruence | right]. cbn. split; [intros _; exact Hs|]. split; [exact Q | exact Cc].
+      * intros _. unfold SP; cbn. destruct P as [_ [X|X]]; [congruence|].
+        destruct (connecting s); [destruct X as [_ X]; auto|]. destruct X as [X|X]; [congruence | auto].
+  - unfold api_close. destruct (closing s) eqn:Hc; [auto|]. split; intros _; [left | left]; reflexivity.
+  - unfold api_write2.
+    set (s0 := ev (EWrite2 (next_id s)) (ev (EWrite (next_id s) (sumN bufs)) (set_next_id (S (next_id s)) s))).
+    destruct (check_before_write2 s0); [split; [apply B3_same | apply SP_same]; auto|].
+    set (s1 := set_wq _ _).
+    destruct (enq_b3_sp s s1 (fun x => x) eq_refl eq_refl eq_refl eq_refl eq_refl eq_refl eq_refl (wqs s0 =? 0)) as [A B].
+    split; intros H; [apply (B3_same _ _ eq_refl eq_refl eq_refl eq_refl eq_refl eq_refl (A H))
+                     | apply (SP_same _ _ eq_refl eq_refl eq_refl eq_refl (B H))].
+  - split; [apply B3_same | apply SP_same]; auto.
+  - unfold api_write_nomem. destruct (check_before_write s) eqn:Hc.
+    + unfold api_write. change (check_before_write (ev (EWrite (next_id s) (sumN bufs)) (set_next_id (S (next_id s)) s)))
+        with (check_before_write s). rewrite Hc. split; [apply B3_same | apply SP_same]; auto.
+    + destruct (needs_alloc bufs); [split; [apply B3_same | apply SP_same]; auto|].
+      unfold api_write.
+      set (s0 := ev (EWrite (next_id s) (sumN bufs)) (set_next_id (S (next_id s)) s)).
+      destruct (check_before_write s0); [split; [apply B3_same | apply SP_same]; auto|].
+      set (s1 := set_wq _ _).
+      destruct (enq_b3_sp s s1 (fun x => x) eq_refl eq_refl eq_refl eq_refl eq_refl eq_refl eq_refl (wqs s0 =? 0)) as [A B].
+      split; intros H; [apply (B3_same _ _ eq_refl eq_refl eq_refl eq_refl eq_refl eq_refl (A H))
+                       | apply (SP_same _ _ eq_refl eq_refl eq_refl eq_refl (B H))].
+  - unfold api_write2_nomem. destruct (check_before_write2 s) eqn:Hc.
+    + unfold api_write2.
+      change (check_before_write2 (ev (EWrite2 (next_id s)) (ev (EWrite (next_id s) (sumN bufs)) (set_next_id (S (next_id s)) s))))
+        with (check_before_write2 s). rewrite Hc. split; [apply B3_same | apply SP_same]; auto.
+    + destruct (needs_alloc bufs); [split; [apply B3_same | apply SP_same]; auto|].
+      unfold api_write2.
+      set (s0 := ev (EWrite2 (next_id s)) (ev (EWrite (next_id s) (sumN bufs)) (set_next_id (S (next_id s)) s))).
+      destruct (check_before_write2 s0); [split; [apply B3_same | apply SP_same]; auto|].
+      set (s1 := set_wq _ _).
+      destruct (enq_b3_sp s s1 (fun x => x) eq_refl eq_refl eq_refl eq_refl eq_refl eq_refl eq_refl (wqs s0 =? 0)) as [A B].
+      split; intros H; [apply (B3_same _ _ eq_refl eq_refl eq_refl eq_refl eq_refl eq_refl (A H))
+                       | apply (SP_same _ _ eq_refl eq_refl eq_refl eq_refl (B H))].
+  - congruence.
+  - auto.
+Qed.
+
+Lemma apis_b3_sp os : noconn os -> forall s, Prog s ->
+  (B3 s -> B3 (apis s os)) /\ (SP s -> SP (apis s os)).
+Proof.
+  induction 1 as [|o os Ho Hos IH]; intros s P; cbn [apis]; [auto|].
+  destruct (api_b3_sp s o Ho P) as [A B].
+  destruct (IH (api s o) (api_prog s o Ho P)) as [C D]. auto.
 Qed.
 
 (* ------------------------------------------------------------------ *)
@@ -2885,6 +3121,7 @@ Proof.
     + apply I5_boring; simpl; auto.
   - apply I5_boring; simpl; auto.
   - apply I5_boring; simpl; auto.
+  - apply I5_boring; simpl; auto.
 Qed.
 
 Lemma Inv5_init blk o sa pw c ip : Inv5 (init blk o sa pw c ip).
@@ -2979,3 +3216,463 @@ Qed.
 (* ... and with four buffers or fewer nothing is allocated: the call is an ordinary one *)
 Theorem write_nomem_small s bufs : needs_alloc bufs = false -> api_write_nomem s bufs = api_write s bufs.
 Proof. intros Ha. unfold api_write_nomem. rewrite Ha. destruct (check_before_write s); reflexivity. Qed.
+
+(* ------------------------------------------------------------------ *)
+(* shutdown progress, continued: callbacks and the loop                *)
+(* ------------------------------------------------------------------ *)
+Lemma api_write_sr x bufs : shutreq (api_write x bufs) = shutreq x /\ shut (api_write x bufs) = shut x.
+Proof.
+  unfold api_write.
+  set (s0 := ev (EWrite (next_id x) (sumN bufs)) (set_next_id (S (next_id x)) x)).
+  destruct (check_before_write s0); [split; reflexivity|].
+  set (s1 := set_wq _ _). destruct (connecting s1); [split; reflexivity|].
+  destruct (wqs s0 =? 0); [|split; reflexivity].
+  destruct (uv_write_queue_q s1) as (Q1 & Q2 & _). split; [exact Q1 | exact Q2].
+Qed.
+
+Lemma api_write2_sr x bufs : shutreq (api_write2 x bufs) = shutreq x /\ shut (api_write2 x bufs) = shut x.
+Proof.
+  unfold api_write2.
+  set (s0 := ev (EWrite2 (next_id x)) (ev (EWrite (next_id x) (sumN bufs)) (set_next_id (S (next_id x)) x))).
+  destruct (check_before_write2 s0); [split; reflexivity|].
+  set (s1 := set_wq _ _). destruct (connecting s1); [split; reflexivity|].
+  destruct (wqs s0 =? 0); [|split; reflexivity].
+  destruct (uv_write_queue_q s1) as (Q1 & Q2 & _). split; [exact Q1 | exact Q2].
+Qed.
+
+Lemma api_ns x o : o <> OConnect -> NS x -> NS (api x o).
+Proof.
+  intros Hne N. unfold NS in *. destruct o; cbn [api]; try congruence; auto.
+  - destruct (api_write_sr x bufs) as [A B]. rewrite A, B. exact N.
+  - unfold api_try.
+    repeat match goal with |- context [match ?c with _ => _ end] => destruct c end; cbn; exact N.
+  - unfold api_shutdown.
+    destruct (negb (writable x) || shut x || shutreq x || closing x || closed x) eqn:Hcond; [exact N|].
+    cbn. intros _. destruct (wq x); cbn; destruct (writable x), (shut x), (shutreq x), (closing x); try discriminate; auto.
+  - unfold api_close. destruct (closing x); [exact N | cbn; exact N].
+  - destruct (api_write2_sr x bufs) as [A B]. rewrite A, B. exact N.
+  - unfold api_write_nomem. destruct (check_before_write x); [|destruct (needs_alloc bufs); [exact N|]];
+      destruct (api_write_sr x bufs) as [A B]; rewrite A, B; exact N.
+  - unfold api_write2_nomem. destruct (check_before_write2 x); [|destruct (needs_alloc bufs); [exact N|]];
+      destruct (api_write2_sr x bufs) as [A B]; rewrite A, B; exact N.
+Qed.
+
+Lemma apis_ns os : noconn os -> forall x, NS x -> NS (apis x os).
+Proof. induction 1 as [|o os Ho Hos IH]; intros x N; cbn [apis]; auto. apply IH, api_ns; auto. Qed.
+
+Section ShutProg.
+Variable beh : nat -> list op.
+Hypothesis Hbeh : forall k, noconn (beh k).
+
+Lemma run_cb_b3_sp s : Prog s -> (B3 s -> B3 (run_cb beh s)) /\ (SP s -> SP (run_cb beh s)).
+Proof.
+  intros P. unfold run_cb.
+  set (s1 := set_cbn (S (StreamWrite.cbn s)) s).
+  assert (P1 : Prog s1) by (apply (Prog_same s); auto).
+  destruct (apis_b3_sp (beh (StreamWrite.cbn s)) (Hbeh _) s1 P1) as [A B].
+  split; intros H; [apply A; apply (B3_same s); auto | apply B; apply (SP_same s); auto].
+Qed.
+
+Lemma cb_loop_b3 l : forall s, Prog s -> B3 s -> B3 (cb_loop beh l s).
+Proof.
+  induction l as [|r rest IH]; intros s P Hb; cbn [cb_loop]; auto.
+  cbv zeta. destruct (cb_step_same r rest s) as (E1 & E2 & E3 & E4 & E5 & E6 & E7).
+  match goal with |- context [run_cb beh ?x] => set (s3 := x) in * end.
+  assert (P3 : Prog s3) by (apply (Prog_same s); assumption).
+  assert (B3' : B3 s3).
+  { apply (B3_same s); auto; unfold s3; destruct (r_freed r); reflexivity. }
+  apply IH; [apply run_cb_prog; auto | apply (run_cb_b3_sp s3 P3); auto].
+Qed.
+
+Lemma write_callbacks_b3 s : Prog s -> closing s = true \/ (NS s /\ CC s) -> B3 (write_callbacks beh s).
+Proof.
+  intros P H. unfold write_callbacks. destruct (cq s) as [|r l] eqn:Hc.
+  - destruct H as [H|[N C]]; [left; exact H | right]. split; [exact N | split; [left; exact Hc | exact C]].
+  - apply cb_loop_b3; [apply (Prog_same s); auto|].
+    destruct H as [H|[N C]]; [left; exact H | right]. cbn. split; [exact N | split; [left; reflexivity|]].
+    unfold CC. cbn. intros _. reflexivity.
+Qed.
+
+Lemma drain_b3_sp s :
+  FC s -> connecting s = false -> closing s = true \/ (wq s = [] /\ cq s = [] /\ NS s) ->
+  B3 (drain beh s) /\ SP (drain beh s).
+Proof.
+  intros F Hc H.
+  destruct (drain_shape beh s) as (s5 & E & A & B & C & D & W & Fe & Ar & Q & Sh).
+  assert (P5 : Prog s5).
+  { split; [unfold FC; rewrite A, B; exact F|]. rewrite A, C, Hc, W.
+    destruct H as [H|(H & _)]; [left; exact H | right; left; exact H]. }
+  assert (B5 : B3 s5 /\ SP s5).
+  { destruct H as [H|(Hq & Hcq & N)].
+    - split; left; rewrite A; exact H.
+    - assert (Hsr : shutreq s5 = false).
+      { destruct Sh as [X|[X Y]]; [exact X|]. rewrite (N X) in Y. discriminate. }
+      split.
+      + right. split; [unfold NS; rewrite Hsr; discriminate|]. split; [left; rewrite Q; exact Hcq|].
+        unfold CC. rewrite C, Hc. discriminate.
+      + right; left; exact Hsr. }
+  destruct B5 as [B5 S5].
+  destruct E as [E|E]; rewrite E; [split; assumption|].
+  destruct (run_cb_b3_sp s5 P5) as [X Y]. split; auto.
+Qed.
+
+Lemma stream_connect_b3_sp s :
+  FC s -> connecting s = true -> C1 s -> closing s = true \/ (NS s /\ CC s) ->
+  B3 (stream_connect beh s) /\ SP (stream_connect beh s).
+Proof.
+  intros F Hc HC H.
+  destruct H as [Hcl|[N Cc]].
+  { destruct (stream_connect_kc beh Hbeh s) as [K _]. split; left; apply K; exact Hcl. }
+  unfold stream_connect.
+  match goal with |- context [let '(error, s1) := ?X in _] => destruct X as [error s1] eqn:HX end.
+  assert (E1 : closing s1 = closing s /\ fdopen s1 = fdopen s /\ connecting s1 = connecting s /\
+               wq s1 = wq s /\ armed s1 = armed s /\ fed s1 = fed s /\ cq s1 = cq s /\
+               shutreq s1 = shutreq s /\ shut s1 = shut s /\
+               ((error = derr s /\ (derr s < 0)%Z /\ derr s <> (- EINPROGRESS)%Z) \/
+                (derr s1 = 0%Z /\ armed s = true))).
+  { destruct (Z.eqb_spec (derr s) 0) as [Hd|Hd]; cbn [negb] in HX.
+    - assert (Ha : armed s = true) by (destruct HC as [[_ X]|[X _]]; [exact X | lia]).
+      destruct (sockerr s); inversion HX; subst; cbn; repeat split; auto.
+    - inversion HX; subst; cbn. repeat split; auto. left.
+      destruct HC as [[X _]|[X Y]]; [contradiction | auto]. }
+  destruct E1 as (Ec & Ef & Eco & Ew & Ea & Efe & Ecq & Esr & Esh & Hcase).
+  assert (Hcq : cq s1 = []) by (rewrite Ecq; apply Cc; exact Hc).
+  destruct (Z.eqb_spec error (- EINPROGRESS)) as [He|He].
+  { destruct Hcase as [(X & _ & Y)|[Hd Ha]]; [congruence|]. split.
+    - right. split; [unfold NS; rewrite Esr, Esh; exact N|]. split; [left; exact Hcq|].
+      unfold CC. intros _. exact Hcq.
+    - right; right; left. rewrite Ea; exact Ha. }
+  set (s2 := set_connecting false s1).
+  match goal with |- context [run_cb beh (ev (EConnCb error) ?x)] => set (s3 := x) end.
+  assert (E3 : closing s3 = closing s1 /\ fdopen s3 = fdopen s1 /\ connecting s3 = false /\ wq s3 = wq s1 /\
+               cq s3 = cq s1 /\ shutreq s3 = shutreq s1 /\ shut s3 = shut s1 /\ fed s3 = fed s1).
+  { unfold s3. destruct (error <? 0)%Z; destruct ((_ : bool) || _); cbn; repeat split. }
+  destruct E3 as (E3c & E3f & E3co & E3w & E3q & E3r & E3s & E3fe).
+  set (s3e := ev (EConnCb error) s3).
+  assert (F3 : FC s3e) by (unfold FC; cbn; rewrite E3c, E3f, Ec, Ef; exact F).
+  assert (B3e : B3 s3e).
+  { right. split; [unfold NS; cbn; rewrite E3r, E3s, Esr, Esh; exact N|].
+    split; [left; cbn; rewrite E3q; exact Hcq|]. unfold CC; cbn. rewrite E3co. discriminate. }
+  destruct (run_cb_kc_cd beh Hbeh s3e) as [[K4a K4b] [K4c _]].
+  destruct (Z.ltb_spec error 0) as [Hneg|Hpos].
+  - (* failed *)
+    set (s4 := run_cb beh s3e) in *.
+    assert (F4 : FC s4) by (apply K4b; exact F3).
+    destruct (fdopen s4) eqn:Hfd; cbn [negb].
+    2: { split; left; apply F4; exact Hfd. }
+    assert (Hc4 : connecting (flush s4) = false).
+    { change (connecting (flush s4)) with (connecting s4). rewrite K4c. exact E3co. }
+    assert (Pf : Prog (flush s4)) by (split; [exact F4|]; right; rewrite Hc4; left; reflexivity).
+    pose proof (write_callbacks_prog beh Hbeh _ Pf) as P5.
+    (* NS survives the callback although Prog does not hold inside it: uv_shutdown only sets the flags *)
+    assert (N4 : closing s4 = true \/ NS s4).
+    { right. unfold s4, run_cb. apply apis_ns; [apply Hbeh|].
+      unfold NS in *.
+      change (shutreq (set_cbn (S (StreamWrite.cbn s3e)) s3e)) with (shutreq s3).
+      change (shut (set_cbn (S (StreamWrite.cbn s3e)) s3e)) with (shut s3).
+      rewrite E3r, E3s, Esr, Esh. exact N. }
+    assert (Bf : closing (flush s4) = true \/ (NS (flush s4) /\ CC (flush s4))).
+    { destruct N4 as [X|X]; [left; exact X | right]. split; [exact X|]. unfold CC. rewrite Hc4. discriminate. }
+    pose proof (write_callbacks_b3 _ Pf Bf) as B5.
+    destruct (write_callbacks_kc_cd beh Hbeh (flush s4)) as [_ [Cc5 _]].
+    set (s5 := write_callbacks beh (flush s4)) in *.
+    assert (Hc5 : connecting s5 = false) by (rewrite Cc5; exact Hc4).
+    assert (S5dflt : shutreq s5 = false \/ closing s5 = true \/ wq s5 <> [] \/ cq s5 <> [] -> SP s5).
+    { intros [X|[X|[X|X]]].
+      - right; left; exact X.
+      - left; exact X.
+      - destruct P5 as [_ [Y|Y]]; [left; exact Y|]. rewrite Hc5 in Y. destruct Y as [Y|Y]; [contradiction|].
+        right; right; exact Y.
+      - destruct B5 as [Y|(_ & [Y|Y] & _)]; [left; exact Y | contradiction | right; right; right; exact Y]. }
+    destruct (shutreq s5 && negb (connecting s5) && fdopen s5) eqn:Hcond.
+    + destruct (wq s5) eqn:Hq5; [|split; [exact B5 | apply S5dflt; right; right; left; try rewrite Hq5; discriminate]].
+      destruct (cq s5) eqn:Hcq5; [|split; [exact B5 | apply S5dflt; right; right; right; try rewrite Hcq5; discriminate]].
+      apply drain_b3_sp; [apply P5 | exact Hc5|].
+      destruct B5 as [Y|(Y & _)]; [left; exact Y | right; auto].
+    + split; [exact B5|]. apply S5dflt.
+      destruct (shutreq s5); [|left; reflexivity]. rewrite Hc5 in Hcond. cbn in Hcond.
+      right; left. destruct P5 as [F5 _]. apply F5. exact Hcond.
+  - (* connected: POLLOUT stays armed when something is queued or a shutdown is pending *)
+    assert (Ha : armed s1 = true).
+    { destruct Hcase as [(X & Y & _)|[_ Ha]]; [lia | rewrite Ea; exact Ha]. }
+    assert (Ha3 : (wq s1 = [] /\ shutreq s1 = false) \/ armed s3 = true).
+    { unfold s3. destruct (Z.ltb_spec error 0); [lia|]. cbn [orb].
+      change (wq s2) with (wq s1). change (shutreq s2) with (shutreq s1).
+      destruct (wq s1) eqn:Hq; [|right; cbn; exact Ha].
+      destruct (shutreq s1); cbn; [right; exact Ha | left; auto]. }
+    assert (P3 : Prog s3e).
+    { split; [exact F3|]. right.
+      change (connecting s3e) with (connecting s3). rewrite E3co.
+      change (wq s3e) with (wq s3). change (armed s3e) with (armed s3).
+      rewrite E3w. destruct Ha3 as [[X _]|X]; [left; exact X | right; left; exact X]. }
+    assert (S3 : SP s3e).
+    { destruct Ha3 as [[_ X]|X]; [right; left; change (shutreq s3e) with (shutreq s3); rewrite E3r; exact X
+                                | right; right; left; exact X]. }
+    destruct (run_cb_b3_sp s3e P3) as [X Y].
+    destruct (negb (fdopen (run_cb beh s3e))); split; auto.
+Qed.
+
+Lemma stream_io_b3_sp s :
+  PreIO s -> closing s = true \/ (NS s /\ CC s) -> B3 (stream_io beh s) /\ SP (stream_io beh s).
+Proof.
+  intros [F H] Hn.
+  destruct H as [Hcl|H].
+  { destruct (stream_io_kc beh Hbeh s) as [K _]. split; left; apply K; exact Hcl. }
+  unfold stream_io. destruct (connecting s) eqn:Hc; [apply stream_connect_b3_sp; auto|].
+  destruct (uv_write_queue_frame s) as (A & B & C & D).
+  destruct (uv_write_queue_q s) as (Q1 & Q2 & _ & _).
+  assert (P1 : Prog (uv_write_queue s)).
+  { split; [unfold FC; rewrite A, B; exact F|]. right. rewrite C, Hc. apply write_loop_prog. }
+  assert (Hn1 : closing (uv_write_queue s) = true \/ (NS (uv_write_queue s) /\ CC (uv_write_queue s))).
+  { destruct Hn as [X|[N _]]; [left; rewrite A; exact X | right]. split.
+    - unfold NS. rewrite Q1, Q2. exact N.
+    - unfold CC. rewrite C, Hc. discriminate. }
+  pose proof (write_callbacks_prog beh Hbeh _ P1) as P2.
+  pose proof (write_callbacks_b3 _ P1 Hn1) as B2.
+  destruct (write_callbacks_kc_cd beh Hbeh (uv_write_queue s)) as [_ [Cc _]].
+  set (s2 := write_callbacks beh (uv_write_queue s)) in *.
+  assert (Hc2 : connecting s2 = false) by (rewrite Cc, C; exact Hc).
+  destruct (wq s2) eqn:Hq.
+  - destruct (cq s2) eqn:Hcq.
+    + apply drain_b3_sp; [apply P2 | exact Hc2|].
+      destruct B2 as [Y|(Y & _)]; [left; exact Y | right; auto].
+    + split; [exact B2|]. destruct B2 as [Y|(_ & [Y|Y] & _)]; [left; exact Y | congruence | right; right; right; exact Y].
+  - split; [exact B2|]. destruct P2 as [_ [Y|Y]]; [left; exact Y|]. rewrite Hc2, Hq in Y.
+    destruct Y as [Y|Y]; [discriminate | right; right; exact Y].
+Qed.
+
+Definition Q3 (s : st) : Prop := Prog s /\ B3 s /\ SP s.
+
+Lemma B3_weak s : B3 s -> closing s = true \/ (NS s /\ CC s).
+Proof. intros [H|(N & _ & C)]; auto. Qed.
+
+Lemma run_pending_q3 s : Q3 s -> Q3 (run_pending beh s).
+Proof.
+  intros (P & B & S). unfold run_pending. destruct (fed s); [|split; [|split]; assumption].
+  assert (Pre : PreIO (set_fed false s)) by (destruct (Prog_PreIO _ P) as [F H]; split; [exact F | exact H]).
+  assert (Hn : closing (set_fed false s) = true \/ (NS (set_fed false s) /\ CC (set_fed false s))) by (apply (B3_weak s B)).
+  split; [apply (stream_io_prog beh Hbeh); auto | apply stream_io_b3_sp; auto].
+Qed.
+
+Lemma pending_rounds_q3 k : forall s, Q3 s -> Q3 (pending_rounds beh k s).
+Proof.
+  induction k as [|k IH]; intros s H; cbn [pending_rounds]; auto.
+  destruct (fed s); auto. apply IH, run_pending_q3, H.
+Qed.
+
+Lemma destroy_closing s : closing s = true -> closing (destroy beh s) = true.
+Proof.
+  intros Hc. unfold destroy.
+  set (s0 := set_closed true s).
+  match goal with |- context [flush ?x] => set (sc1 := x) end.
+  assert (K1 : KC s sc1).
+  { unfold sc1. destruct (connecting s0); [|apply KC_same; reflexivity].
+    eapply KC_trans; [apply (KC_same s (ev (EConnCb UV_ECANCELED) s0)); reflexivity|].
+    eapply KC_trans; [apply run_cb_kc_cd; auto|]. apply KC_same; reflexivity. }
+  destruct (write_callbacks_kc_cd beh Hbeh (flush sc1)) as [K2 _].
+  pose proof (drain_kc beh Hbeh (write_callbacks beh (flush sc1))) as K3.
+  change (closing (drain beh (write_callbacks beh (flush sc1))) = true).
+  destruct K1 as [K1 _]. destruct K2 as [K2 _]. destruct K3 as [K3 _].
+  apply K3, K2. change (closing (flush sc1)) with (closing sc1). apply K1. exact Hc.
+Qed.
+
+Lemma run_iter_q3 s : Q3 s -> Q3 (run_iter beh s).
+Proof.
+  intros H. unfold run_iter.
+  pose proof (run_pending_q3 s H) as A.
+  set (s1 := run_pending beh s) in *.
+  set (s1' := set_pollw (tl (pollw s1)) s1).
+  assert (H1 : Q3 s1').
+  { destruct A as (P & B & S). split; [apply (Prog_same s1); auto | split; [apply (B3_same s1); auto | apply (SP_same s1); auto]]. }
+  match goal with |- context [if armed s1' && ?w then _ else _] => set (b := armed s1' && w) end.
+  assert (H2 : Q3 (if b then stream_io beh s1' else s1')).
+  { destruct b; auto. destruct H1 as (P & B & S).
+    split; [apply (stream_io_prog beh Hbeh), Prog_PreIO, P | apply stream_io_b3_sp; [apply Prog_PreIO, P | apply B3_weak, B]]. }
+  pose proof (pending_rounds_q3 8 _ H2) as H3.
+  match goal with |- context [if closing ?x && _ then _ else _] => set (s3 := x) in * end.
+  destruct (closing s3 && negb (closed s3)) eqn:Hc; auto.
+  apply andb_prop in Hc. destruct Hc as [Hc _].
+  destruct H3 as (P3 & _ & _).
+  pose proof (destroy_prog beh Hbeh s3 (proj1 P3) Hc) as Pd.
+  pose proof (destroy_closing s3 Hc) as Hcd.
+  split; [exact Pd | split; left; exact Hcd].
+Qed.
+
+Lemma step_q3 s o : o <> OConnect -> Q3 s -> Q3 (step beh s o).
+Proof.
+  intros Hne (P & B & S). unfold step.
+  set (s' := match o with ORun => run_iter beh s | _ => api s o end).
+  assert (H : Q3 s').
+  { unfold s'. destruct o; try congruence;
+      try (destruct (api_b3_sp s _ Hne P) as [X Y]; split; [apply api_prog; auto | split; auto]; fail).
+    apply run_iter_q3. split; [|split]; assumption. }
+  destruct H as (P' & B' & S').
+  split; [apply (Prog_same s'); auto | split; [apply (B3_same s'); auto | apply (SP_same s'); auto]].
+Qed.
+
+Lemma exec_q3 os : noconn os -> forall s, Q3 s -> Q3 (exec beh s os).
+Proof.
+  induction 1 as [|o os Ho Hos IH]; intros s H; cbn [exec]; auto. apply IH, step_q3; auto.
+Qed.
+
+End ShutProg.
+
+Lemma Q3_init blk o sa pw c ip : Q3 (init blk o sa pw c ip).
+Proof.
+  split; [apply Prog_init|]. init_cases c; split;
+    try (right; cbn; repeat split; auto; try discriminate; unfold NS, CC; cbn; auto; fail);
+    try (right; left; reflexivity).
+Qed.
+
+(* C05_shutdown_progress (scripts without a connect retry): a pending uv_shutdown is never
+   left without a wake-up, so uv__drain gets to carry it out *)
+Theorem shutdown_progress_holds beh blk o sa pw c ip ops :
+  noconn ops -> (forall k, noconn (beh k)) ->
+  shutdown_progress (exec beh (init blk o sa pw c ip) ops).
+Proof.
+  intros Hops Hbeh. destruct (exec_q3 beh Hbeh ops Hops _ (Q3_init blk o sa pw c ip)) as (_ & _ & S).
+  intros Hs Hc. destruct S as [S|[S|S]]; [congruence | congruence | exact S].
+Qed.
+
+(* ------------------------------------------------------------------ *)
+(* every accepted uv_shutdown gets exactly one callback, after the     *)
+(* callbacks of all writes accepted before it (all scripts)            *)
+(* ------------------------------------------------------------------ *)
+Fixpoint nsh0 (t : list event) : nat :=        (* uv_shutdown calls that returned 0 *)
+  match t with
+  | [] => O
+  | EShut c :: t' => ((if Z.eqb c 0 then 1 else 0) + nsh0 t')%nat
+  | _ :: t' => nsh0 t'
+  end.
+
+Fixpoint nshcb (t : list event) : nat :=       (* shutdown callbacks *)
+  match t with
+  | [] => O
+  | EShutCb _ :: t' => S (nshcb t')
+  | _ :: t' => nshcb t'
+  end.
+
+(* accepted = called back + (1 if one is pending) *)
+Definition Inv6 (s : st) : Prop :=
+  nsh0 (tr s) = (nshcb (tr s) + (if shutreq s then 1 else 0))%nat.
+
+Lemma Inv6_prim s s' : prim s s' -> Inv6 s -> Inv6 s'.
+Proof.
+  intros P I. unfold Inv6 in *.
+  destruct P; unfold call0, finish_head, flush in *; cbn in *;
+    try (destruct (r_freed r); cbn; lia); try (destruct (_ =? _)%Z; cbn; lia); try lia.
+  - destruct H as (_ & _ & _ & _ & E1 & _ & _ & _ & _ & _ & E2). rewrite E1, E2. exact I.
+  - rewrite H0 in I. lia.
+  - rewrite H in I. lia.
+  - rewrite H in I. lia.
+  - rewrite H in I. destruct (a =? 0)%Z; lia.
+Qed.
+
+Lemma Inv6_steps s s' : steps s s' -> Inv6 s -> Inv6 s'.
+Proof. induction 1; eauto using Inv6_prim. Qed.
+
+Lemma Inv6_init blk o sa pw c ip : Inv6 (init blk o sa pw c ip).
+Proof. unfold Inv6. init_cases c; reflexivity. Qed.
+
+(* when the shutdown callback runs, every write accepted so far has had its callback *)
+Definition P7 (t : list event) : Prop :=
+  forall c l1 l2, t = l1 ++ EShutCb c :: l2 -> forall id, In (ERet id 0%Z) l2 -> In id (cb_ids l2).
+
+Lemma P7_cons e t : (forall c, e <> EShutCb c) -> P7 t -> P7 (e :: t).
+Proof.
+  intros He H c l1 l2 E. destruct (cons_split _ _ _ _ _ E) as [(_ & X & _)|(l1' & -> & E')].
+  - exfalso. eapply He; eauto.
+  - eapply H; eauto.
+Qed.
+
+Lemma P7_shutcb c t : (forall id, In (ERet id 0%Z) t -> In id (cb_ids t)) -> P7 t -> P7 (EShutCb c :: t).
+Proof.
+  intros Hall H c' l1 l2 E. destruct (cons_split _ _ _ _ _ E) as [(_ & X & Ht)|(l1' & -> & E')].
+  - subst l2. exact Hall.
+  - eapply H; eauto.
+Qed.
+
+Definition Inv7 (s : st) : Prop := P7 (tr s).
+
+Lemma Inv7_prim s s' : prim s s' -> Inv2 s -> Inv7 s -> Inv7 s'.
+Proof.
+  intros P I2' I. unfold Inv7 in *.
+  assert (Hall : wq s = [] -> cq s = [] -> pq s = [] ->
+                 forall id, In (ERet id 0%Z) (tr s) -> In id (cb_ids (tr s))).
+  { intros Hq Hc Hp id Hr. destruct I2' as [_ _ _ _ _ _ _ _ J _ _]. destruct (J id Hr) as [X|X]; [exact X|].
+    unfold live in X. rewrite Hq, Hc, Hp in X. destruct X. }
+  destruct P; unfold call0, finish_head, flush in *; cbn in *;
+    try (destruct (r_freed r); cbn); try (destruct (_ =? _)%Z; cbn);
+    repeat (apply P7_cons; [intros; discriminate|]); try exact I.
+  - destruct H as (_ & _ & _ & _ & _ & _ & _ & _ & _ & _ & E). rewrite E. exact I.
+  - apply P7_shutcb; auto.
+  - apply P7_shutcb; [|apply P7_cons; [intros; discriminate | exact I]].
+    intros id [X|X]; [discriminate|]. cbn. apply Hall; auto.
+  - apply P7_shutcb; [|apply P7_cons; [intros; discriminate | exact I]].
+    intros id [X|X]; [discriminate|]. cbn. apply Hall; auto.
+Qed.
+
+Lemma Inv7_init blk o sa pw c ip : Inv7 (init blk o sa pw c ip).
+Proof.
+  unfold Inv7, P7. init_cases c; cbn; intros ? l1 ? E; destruct l1; discriminate.
+Qed.
+
+Lemma Inv127_steps s s' : steps s s' -> Inv1 s /\ Inv2 s /\ Inv7 s -> Inv1 s' /\ Inv2 s' /\ Inv7 s'.
+Proof.
+  induction 1; auto. intros (A & B & C). apply IHsteps.
+  split; [|split].
+  - eapply Inv1_prim; eauto.
+  - eapply Inv2_prim; eauto.
+  - eapply Inv7_prim; eauto.
+Qed.
+
+Lemma nsh0_app a b : nsh0 (a ++ b) = (nsh0 a + nsh0 b)%nat.
+Proof. induction a as [|e a IH]; simpl; auto. destruct e; auto. rewrite IH. lia. Qed.
+Lemma nsh0_rev t : nsh0 (rev t) = nsh0 t.
+Proof. induction t as [|e t IH]; simpl; auto. rewrite nsh0_app, IH. destruct e; simpl; lia. Qed.
+Lemma nshcb_app a b : nshcb (a ++ b) = (nshcb a + nshcb b)%nat.
+Proof. induction a as [|e a IH]; simpl; auto. destruct e; auto. rewrite IH. lia. Qed.
+Lemma nshcb_rev t : nshcb (rev t) = nshcb t.
+Proof. induction t as [|e t IH]; simpl; auto. rewrite nshcb_app, IH. destruct e; simpl; lia. Qed.
+
+(* C05_shutdown_cb_exactly_once *)
+Theorem shutdown_cb_exactly_once beh blk o sa pw cfg ip ops :
+  let s := exec beh (init blk o sa pw cfg ip) ops in
+  nsh0 (trace s) = (nshcb (trace s) + (if shutreq s then 1 else 0))%nat /\
+  (forall c l1 l2, trace s = l1 ++ EShutCb c :: l2 ->
+     forall id, In (ERet id 0%Z) l1 -> In id (cb_ids l1)).
+Proof.
+  intros s. destruct (exec_steps beh blk o sa pw cfg ip ops) as [S _]. fold s in S.
+  split.
+  - unfold trace. rewrite nsh0_rev, nshcb_rev. apply (Inv6_steps _ _ S). apply Inv6_init.
+  - destruct (Inv127_steps _ _ S) as (_ & _ & I7).
+    { split; [apply Inv1_init | split; [apply Inv2_init | apply Inv7_init]]. }
+    intros c l1 l2 E id Hr. unfold trace in E. apply rev_split in E.
+    apply in_rev in Hr. specialize (I7 c _ _ E id Hr). rewrite cb_ids_rev in I7.
+    apply in_rev in I7. try rewrite rev_involutive in I7. exact I7.
+Qed.
+
+(* the inputs on which a shutdown was stranded before the repair of uv__stream_connect *)
+Example shutdown_while_connecting_former_witnesses :
+  trace (exec (fun _ => []) (init false [] 0%Z [] (Some (true, Some 115%positive, [0%Z], [])) false)
+              [OShutdown; ORun; ORun]) =
+    [EShut 0; EQ 0; EConnCb 0; ESysShut 0; EShutCb 0; EQ 0; EQ 0] /\
+  trace (exec (fun _ => []) (init false [] 0%Z [] (Some (true, Some 115%positive, [111%Z], [])) false)
+              [OWrite [3]; OShutdown; ORun; ORun]) =
+    [EWrite 0 3; ERet 0 0; EQ 3; EShut 0; EQ 3; EConnCb (-111); ECb 0 UV_ECANCELED 0;
+     ESysShut (-107); EShutCb (-107); EQ 0; EQ 0].
+Proof. split; vm_compute; reflexivity. Qed.
+
+(* C05_shutdown_last_refuted: after uv_shutdown, a uv_tcp_connect retried on the handle (here it even
+   fails at once) ors UV_HANDLE_WRITABLE back in, and uv_write is accepted again *)
+Theorem shutdown_last_refuted :
+  exists beh cfg ops l1 l2 id,
+    trace (exec beh (init false [AErr 32] 0%Z [] cfg false) ops) = l1 ++ EShut 0%Z :: l2 /\
+    In (ERet id 0%Z) l2.
+Proof.
+  exists (fun _ => []), (Some (true, Some 115%positive, [111%Z], [Some 22%positive])),
+         [OShutdown; ORun; OConnect; OWrite [4]; ORun], [],
+         [EQ 0; EConnCb (-111); ESysShut (-107); EShutCb (-107); EQ 0; EReopen; EConnect (-22);
+          EQ 0; EWrite 0 4; ERet 0 0; EQ 4; ECb 0 (-32) 0; EQ 0], O.
+  split; [vm_compute; reflexivity | simpl; tauto].
+Qed.
